@@ -973,6 +973,9 @@ func (fc *FnCtx) lockOp(m Val, lock bool, pos token.Pos, txt string) {
 		fc.oblige("lock:nodouble", txt, not(sel(held, m.T)), nil, "mutex is not already held by this goroutine", pos)
 		fc.ghost["held"] = store(held, m.T, "true")
 		fc.hookAnchor("lock", txt, nil, []Val{m}, nil)
+		// `at lock(m) ensures E`: a monitor invariant assumed on acquisition
+		fc.preCallHeap, fc.preCallGhost = fc.heap, fc.ghost
+		fc.hookAnchorAfter("lock", txt, nil, []Val{m}, Val{}, nil)
 	} else {
 		fc.oblige("lock:held", txt, sel(held, m.T), nil, "mutex is held when unlocked", pos)
 		fc.hookAnchor("unlock", txt, nil, []Val{m}, nil)
